@@ -214,10 +214,61 @@ def f_uasg_mod : Family := mkIntAsg "u" "mod" .syn .imod
 def f_iop_neg : Family := { name := "iop_neg", kind := .syn, keys := lens, nOut := k0, spec := fun _ j => .neg (v j) }
 def f_iop_not : Family := { name := "iop_not", kind := .syn, keys := lens, nOut := k0, spec := fun _ j => .bnot (v j) }
 
+/-! matrix versions (ext/matrix_common, ext/matrix_relational): per element / per column.  The relational and `abs` units are traced one column at
+    a time (key `[C, R, i]`: column `i` symbolic — `a` at 0…R−1, `b` at R…2R−1, then ε —, every other column the literal 1), and whole for 2×2. -/
+def shapeCol : List (List Nat) := shapes.flatMap fun s => (List.range (k0 s)).map fun i => s ++ [i]
+def absLeafT (x : E) : Tree := .branch (.le zero x) (.leaf x) (.leaf (.neg x))
+def allEqT : List (E × E) → Tree
+  | [] => .leaf one
+  | (x, y) :: r => .branch (.eq x y) (allEqT r) (.leaf zero)
+def anyNeT : List (E × E) → Tree
+  | [] => .leaf zero
+  | (x, y) :: r => .branch (.eq x y) (anyNeT r) (.leaf one)
+/-- `all_r |d_r| ≤ ε` with `|d| = (0 ≤ d ? d : −d)` -/
+def allLeT : List E → E → Tree
+  | [], _ => .leaf one
+  | d :: ds, e => .branch (.le zero d) (.branch (.le d e) (allLeT ds e) (.leaf zero)) (.branch (.le (.neg d) e) (allLeT ds e) (.leaf zero))
+/-- `any_r |d_r| > ε` -/
+def anyGtT : List E → E → Tree
+  | [], _ => .leaf zero
+  | d :: ds, e => .branch (.le zero d) (.branch (.lt e d) (.leaf one) (anyGtT ds e)) (.branch (.lt e (.neg d)) (.leaf one) (anyGtT ds e))
+def colPairs (R offA offB : Nat) : List (E × E) := (List.range R).map fun r => (v (offA + r), v (offB + r))
+def colDiffs (R offA offB : Nat) : List E := (List.range R).map fun r => .sub (v (offA + r)) (v (offB + r))
+def f_mabs : Family :=
+  { name := "mabs", kind := .poly, treeMode := true, treeWalk := true, keys := shapeCol, nOut := k1, spec := fun _ _ => zero, specT := fun _ j => absLeafT (v j) }
+def f_mabsJ : Family :=
+  { name := "mabsJ", kind := .poly, treeMode := true, treeWalk := true, keys := [[]], nOut := fun _ => 4, spec := fun _ _ => zero, specT := fun _ j => absLeafT (v j) }
+def mkMRel (n : String) (t : List Nat → Tree) : Family :=
+  { name := n, kind := .poly, treeMode := true, treeWalk := true, keys := shapeCol, nOut := fun _ => 1, spec := fun _ _ => zero, specT := fun k _ => t k }
+def f_mequal := mkMRel "mequal" fun k => allEqT (colPairs (k1 k) 0 (k1 k))
+def f_mnotEqual := mkMRel "mnotEqual" fun k => anyNeT (colPairs (k1 k) 0 (k1 k))
+def f_mequal_e := mkMRel "mequal_e" fun k => allLeT (colDiffs (k1 k) 0 (k1 k)) (v (2 * k1 k))
+def f_mnotEqual_e := mkMRel "mnotEqual_e" fun k => anyGtT (colDiffs (k1 k) 0 (k1 k)) (v (2 * k1 k))
+def f_mequal_ev := mkMRel "mequal_ev" fun k => allLeT (colDiffs (k1 k) 0 (k1 k)) (v (2 * k1 k))
+def f_mnotEqual_ev := mkMRel "mnotEqual_ev" fun k => anyGtT (colDiffs (k1 k) 0 (k1 k)) (v (2 * k1 k))
+/-- whole 2×2 matrices: `a` at 0, `b` at 4, ε at 8 (scalar) or 8 + column (vector); output = column -/
+def mkMRelJ (n : String) (t : Nat → Tree) : Family :=
+  { name := n, kind := .poly, treeMode := true, treeWalk := true, keys := [[]], nOut := fun _ => 2, spec := fun _ _ => zero, specT := fun _ c => t c }
+def f_mequalJ := mkMRelJ "mequalJ" fun c => allEqT (colPairs 2 (2 * c) (4 + 2 * c))
+def f_mnotEqualJ := mkMRelJ "mnotEqualJ" fun c => anyNeT (colPairs 2 (2 * c) (4 + 2 * c))
+def f_mequalJ_e := mkMRelJ "mequalJ_e" fun c => allLeT (colDiffs 2 (2 * c) (4 + 2 * c)) (v 8)
+def f_mnotEqualJ_e := mkMRelJ "mnotEqualJ_e" fun c => anyGtT (colDiffs 2 (2 * c) (4 + 2 * c)) (v 8)
+def f_mequalJ_ev := mkMRelJ "mequalJ_ev" fun c => allLeT (colDiffs 2 (2 * c) (4 + 2 * c)) (v (8 + c))
+def f_mnotEqualJ_ev := mkMRelJ "mnotEqualJ_ev" fun c => anyGtT (colDiffs 2 (2 * c) (4 + 2 * c)) (v (8 + c))
+/-- `mix(x, y, a)` per element: `x (1 − a) + y a`, `a` one scalar (at `2CR`) or a matrix of factors (at `2CR + j`) -/
+def f_mmixs : Family :=
+  { name := "mmixs", kind := .poly, keys := shapes, nOut := fun k => k0 k * k1 k,
+    spec := fun k j => let n := k0 k * k1 k; .add (.mul (v j) (.sub one (v (2 * n)))) (.mul (v (n + j)) (v (2 * n))) }
+def f_mmixm : Family :=
+  { name := "mmixm", kind := .poly, keys := shapes, nOut := fun k => k0 k * k1 k,
+    spec := fun k j => let n := k0 k * k1 k; .add (.mul (v j) (.sub one (v (2 * n + j)))) (.mul (v (n + j)) (v (2 * n + j))) }
+
 def families : List Family :=
   [f_op_add, f_op_sub, f_op_mul, f_op_div, f_asg_add, f_asg_sub, f_asg_mul, f_asg_div, f_op_neg, f_op_preinc, f_op_postdec,
    f_rel_lessThan, f_rel_lessThanEqual, f_rel_greaterThan, f_rel_greaterThanEqual, f_rel_equal, f_rel_notEqual,
    f_iop_add, f_iop_sub, f_iop_mul, f_iop_and, f_iop_or, f_iop_xor, f_iop_shl, f_iop_shr, f_uop_add, f_uop_sub, f_uop_mul, f_uop_and, f_uop_or, f_uop_xor, f_uop_shl, f_uop_shr, f_iop_neg, f_iop_not,
-   f_iop_mod, f_iasg_add, f_iasg_sub, f_iasg_mul, f_iasg_and, f_iasg_or, f_iasg_xor, f_iasg_shl, f_iasg_shr, f_iasg_mod, f_uop_mod, f_uasg_add, f_uasg_sub, f_uasg_mul, f_uasg_and, f_uasg_or, f_uasg_xor, f_uasg_shl, f_uasg_shr, f_uasg_mod]
+   f_iop_mod, f_iasg_add, f_iasg_sub, f_iasg_mul, f_iasg_and, f_iasg_or, f_iasg_xor, f_iasg_shl, f_iasg_shr, f_iasg_mod, f_uop_mod, f_uasg_add, f_uasg_sub, f_uasg_mul, f_uasg_and, f_uasg_or, f_uasg_xor, f_uasg_shl, f_uasg_shr, f_uasg_mod,
+   f_mabs, f_mabsJ, f_mequal, f_mnotEqual, f_mequal_e, f_mnotEqual_e, f_mequal_ev, f_mnotEqual_ev,
+   f_mequalJ, f_mnotEqualJ, f_mequalJ_e, f_mnotEqualJ_e, f_mequalJ_ev, f_mnotEqualJ_ev, f_mmixs, f_mmixm]
 
 end Glm.Spec.C01
